@@ -126,6 +126,25 @@ def scen():
     return bad
 
 
+def scen_joiners(ctx):
+    """every caller blocked in join() returns once the last task is done"""
+    bad = []
+    jq = ctx.JoinableQueue()
+    jq.put('only')
+    done = []
+    ts = [threading.Thread(target=lambda k=k: (jq.join(), done.append(k)), daemon=True) for k in range(3)]
+    for t in ts:
+        t.start()
+    time.sleep(0.3)
+    jq.get(timeout=10)
+    jq.task_done()
+    for t in ts:
+        t.join(3)
+    if sorted(done) != [0, 1, 2]:
+        bad.append('JoinableQueue: three callers were blocked in join(); after the last task_done() only %r returned' % (sorted(done),))
+    return bad
+
+
 def scen_get_modes(ctx):
     """every way of taking an item out gives its place back: after maxsize items were put and taken -- in each mix of
     blocking, timed and non-blocking gets -- maxsize further puts must be accepted at once"""
@@ -203,7 +222,7 @@ def scen_simple(ctx):
 def main():
     data = json.load(open(sys.argv[1]))
     print('replay of %s / %s' % (data['function'], data['obligation']))
-    bad = scen() + scen_simple(billiard.get_context()) + scen_get_modes(billiard.get_context())
+    bad = scen() + scen_simple(billiard.get_context()) + scen_get_modes(billiard.get_context()) + scen_joiners(billiard.get_context())
     for b in bad[:8]:
         print('  violation on real code: ' + b)
     print('REPRODUCED on real code' if bad else 'not reproduced')
